@@ -265,7 +265,46 @@ def t_parser_sites(repo, out):
     out.append("def otherXmlLibUsers : List String := %s" % llist(lstr(u) for u in sorted(users)))
 
 
-TABLES = [t_encoder, t_namespaces, t_boolean, t_parser_sites]
+def t_reply_status(repo, out):
+    """C09: the status sets `_SoapClient.process_reply` switches on."""
+    import http.client as hc
+    rel = "suds/client.py"
+    tree = parse(repo, rel)
+    cls = find_class(tree, "_SoapClient", rel)
+    fn = find_func(cls, "process_reply", rel)
+    sets = []
+    default = None
+    for n in ast.walk(fn):
+        if isinstance(n, ast.Compare) and len(n.ops) == 1 and isinstance(n.ops[0], ast.In) \
+                and isinstance(n.left, ast.Name) and n.left.id == "status" \
+                and isinstance(n.comparators[0], (ast.Tuple, ast.List)):
+            names = []
+            for e in n.comparators[0].elts:
+                if isinstance(e, ast.Attribute) and hasattr(hc, e.attr):
+                    names.append(int(getattr(hc, e.attr)))
+                elif isinstance(e, ast.Constant) and isinstance(e.value, int):
+                    names.append(e.value)
+                else:
+                    raise TranslatorError("process_reply: unrecognised status constant %s" % ast.unparse(e))
+            sets.append((n.lineno, names))
+        if isinstance(n, ast.If) and isinstance(n.test, ast.Compare) and isinstance(n.test.left, ast.Name) \
+                and n.test.left.id == "status" and isinstance(n.test.ops[0], ast.Is) \
+                and isinstance(n.test.comparators[0], ast.Constant) and n.test.comparators[0].value is None:
+            a = n.body[0]
+            if isinstance(a, ast.Assign) and isinstance(a.value, ast.Attribute) and hasattr(hc, a.value.attr):
+                default = int(getattr(hc, a.value.attr))
+    sets.sort()
+    if len(sets) != 2 or default is None:
+        raise TranslatorError("process_reply no longer has the modelled shape (status sets %r, default %r)" % (sets, default))
+    out.append("/-- `_SoapClient.process_reply`: status assumed when none is given. -/")
+    out.append("def replyDefaultStatus : Nat := %d" % default)
+    out.append("/-- statuses answered with `None` before anything else is looked at. -/")
+    out.append("def replyAcceptedStatuses : List Nat := %s" % llist(str(x) for x in sets[0][1]))
+    out.append("/-- statuses whose body is parsed and searched for a SOAP fault. -/")
+    out.append("def replyParsedStatuses : List Nat := %s" % llist(str(x) for x in sets[1][1]))
+
+
+TABLES = [t_encoder, t_namespaces, t_boolean, t_parser_sites, t_reply_status]
 
 
 def generate(repo):
